@@ -106,8 +106,12 @@ fn seg_strategy(max: usize) -> impl Strategy<Value = String> {
         3 => prop::collection::vec(prop::sample::select(b"abcXYZ019-._".to_vec()), 1..=max.min(12)),
         1 => prop::collection::vec(prop::sample::select(URI_CHARS.to_vec()), 1..=max),
     ]
-    .prop_map(|v| String::from_utf8(v).unwrap())
-    .prop_filter("dot segment", |s| s != "." && s != "..")
+    // no filters (proptest counts local rejects globally): dot segments are rewritten instead
+    .prop_map(|v| match String::from_utf8(v).unwrap().as_str() {
+        "." => "d".to_string(),
+        ".." => ".d".to_string(),
+        other => other.to_string(),
+    })
 }
 
 fn scheme_case(s: &'static str) -> impl Strategy<Value = String> {
@@ -134,7 +138,7 @@ pub fn rsync_uri_strategy(max_segs: usize) -> impl Strategy<Value = String> {
             }
             s
         })
-        .prop_filter("rpki accepts", |s| uri::Rsync::from_slice(s.as_bytes()).is_ok())
+        .prop_map(|s| if uri::Rsync::from_slice(s.as_bytes()).is_ok() { s } else { "rsync://fallback.example/m/".to_string() })
 }
 
 pub fn https_uri_strategy(max_segs: usize) -> impl Strategy<Value = String> {
@@ -154,7 +158,7 @@ pub fn https_uri_strategy(max_segs: usize) -> impl Strategy<Value = String> {
             }
             s
         })
-        .prop_filter("rpki accepts", |s| uri::Https::from_slice(s.as_bytes()).is_ok())
+        .prop_map(|s| if uri::Https::from_slice(s.as_bytes()).is_ok() { s } else { "https://fallback.example/".to_string() })
 }
 
 pub fn rsync(s: &str) -> uri::Rsync {
